@@ -12,6 +12,7 @@ import IQE.Lemmas.Filter
 import IQE.Lemmas.DistTwoPhase
 import IQE.Lemmas.OrderAux
 import IQE.Props.C21
+import IQE.Props.C25
 namespace IQE.Lemmas.Pipeline
 open List IQE IQE.Spec IQE.Engine IQE.Engine.Pipeline
 open IQE.Dist (tot tot_of_ok mapM_ok_iff)
@@ -434,5 +435,554 @@ theorem group_vals (cx : EvalCtx) (E : FloatExact cx.fo) (cfg : ExecCfg) (aggs :
   exact (IQE.Props.C21.C21_order_irrelevant E ⟨a.fn, false, .int⟩ hperm hokX).symm
 
 end agg
+
+theorem not_not_true {b : Bool} (h : ¬ ((!b) = true)) : b = true := by cases b <;> simp_all
+
+section aggnode
+open IQE.AggHom IQE.Dist
+
+theorem zip_range_of_mem {α : Type} (l : List α) (a : α) (ha : a ∈ l) : ∃ j, (j, a) ∈ (range l.length).zip l := by
+  obtain ⟨j, hj, rfl⟩ := List.getElem_of_mem ha
+  refine ⟨j, List.mem_iff_getElem.mpr ⟨j, by simp [hj], ?_⟩⟩
+  simp [List.getElem_zip, List.getElem_range]
+
+theorem col_eq (aggs : List AggCall) (X : Table) (kf : Row → Row) (af : AggCall → Row → Val) (j : Nat) (a : AggCall)
+    (hj : aggs[j]? = some a) :
+    ((X.map fun r => (kf r, aggs.map fun a => af a r)).map fun kr => kr.2.getD j .null) = X.map (af a) := by
+  rw [map_map]
+  apply map_congr_left
+  intro r _
+  simp [List.getD, hj]
+
+theorem rowsOf_map (kf : Row → Row) (g : Row → Row) (k : Row) (M : Table) :
+    IQE.Bag.rowsOf k (M.map fun r => (kf r, g r)) = (kfil kf k M).map g := by
+  induction M with
+  | nil => rfl
+  | cons r t ih =>
+    simp only [IQE.Bag.rowsOf, kfil, map_cons, filter_cons] at ih ⊢
+    by_cases h : kf r = k <;> simp [h, ih]
+
+/-- the model's rows of the group with key `k` -/
+def Mg (keys : List Expr) (kf : Row → Row) (M : Table) (k : Row) : Table := if keys.isEmpty then M else kfil kf k M
+
+/-- the aggregate values over the rows `X` -/
+def Vof (fo : FloatOps) (cfg : ExecCfg) (aggs : List AggCall) (af : AggCall → Row → Val) (X : Table) : Row :=
+  aggs.map fun a => (Acc.hash {} fo ⟨a.fn, false, .int⟩).run (cfg.aggTree (X.map (af a)))
+
+theorem agg_node (cx : EvalCtx) (E : FloatExact cx.fo) (cfg : ExecCfg) (keys : List Expr) (aggs : List AggCall)
+    (lay : List (List Table)) (S ref : Table) (keyed : List (List (List (Row × Row))))
+    (hp : lay.flatten.flatten ~ S)
+    (hm : mapRows (keyedRow cx.fo keys aggs) lay = .ok keyed)
+    (hg : aggGuard aggs keyed.flatten.flatten = .ok ())
+    (hs : aggregate cx [] keys aggs S = .ok ref) :
+    (groupAggT cx.fo cfg aggs keys.isEmpty keyed.flatten.flatten).map (fun kv => kv.1 ++ kv.2) ~ ref := by
+  obtain ⟨h1, h2⟩ := mapRows_ok _ lay keyed hm
+  generalize lay.flatten.flatten = M at *
+  obtain ⟨kf, hkfd⟩ : ∃ kf, kf = kfOf cx [] keys := ⟨_, rfl⟩
+  obtain ⟨af, hafd⟩ : ∃ af, af = afOf cx [] := ⟨_, rfl⟩
+  have hrow : ∀ r ∈ M, tot (keyedRow cx.fo keys aggs) r = (kf r, aggs.map fun a => af a r) ∧
+      evalList cx [r] keys = .ok (kf r) ∧ (∀ a ∈ aggs, a.fn ≠ .countStar → eval cx [r] a.arg = .ok (af a r)) := by
+    intro r hr
+    have h := h1 r hr
+    generalize tot (keyedRow cx.fo keys aggs) r = kr at h
+    simp only [keyedRow, Filter.bind_ok, Filter.pure_ok] at h
+    obtain ⟨k, hk, args, hargs, rfl⟩ := h
+    have hk' := Filter.evalList_refines cx r keys (fun x _ v hv => Filter.eval_refines cx r x v hv) k hk
+    obtain ⟨ha1, ha2⟩ := (mapM_ok_iff _ aggs args).mp hargs
+    have hkf : kf r = k := by simp [hkfd, kfOf, tot, hk']
+    have haf : ∀ a ∈ aggs, tot (argOf cx.fo r) a = af a r ∧ (a.fn ≠ .countStar → eval cx [r] a.arg = .ok (af a r)) := by
+      intro a ha
+      have h := ha1 a ha
+      by_cases hcs : a.fn = .countStar
+      · refine ⟨?_, fun h => absurd hcs h⟩
+        obtain ⟨fn, arg, d⟩ := a
+        simp only at hcs
+        subst hcs
+        simp [tot, argOf, hafd, afOf]
+      · have he : argOf cx.fo r a = Filter.eval Filter.Dev.none cx.fo r a.arg := by
+          unfold argOf
+          split
+          · rename_i h'; exact absurd h' hcs
+          · rfl
+        rw [he] at h
+        have hv := Filter.eval_refines cx r a.arg _ h
+        have : af a r = tot (argOf cx.fo r) a := by
+          rw [hafd, afOf_eq cx [] a hcs]
+          simp [tot, hv]
+        exact ⟨this.symm, fun _ => this ▸ hv⟩
+    refine ⟨?_, hkf ▸ hk', fun a ha => (haf a ha).2⟩
+    rw [hkf, ha2]
+    congr 1
+    exact map_congr_left fun a ha => (haf a ha).1
+  have hkeyed : keyed.flatten.flatten = M.map fun r => (kf r, aggs.map fun a => af a r) := by
+    rw [h2]; exact map_congr_left fun r hr => (hrow r hr).1
+  rw [hkeyed] at hg ⊢
+  unfold aggGuard at hg
+  split at hg
+  · cases hg
+  rename_i g1
+  split at hg
+  · cases hg
+  rename_i g2
+  replace g1 := not_not_true g1
+  replace g2 := not_not_true g2
+  have hsup : ∀ a ∈ aggs, aggSupported a = true := all_eq_true.mp g1
+  have hok : ∀ a ∈ aggs, Ok E ⟨a.fn, false, .int⟩ (M.map (af a)) := by
+    intro a ha
+    obtain ⟨j, hmem⟩ := zip_range_of_mem aggs a ha
+    have hcol := all_eq_true.mp g2 (j, a) hmem
+    simp only [col_eq aggs M kf af j a (mem_zip_range aggs j a hmem)] at hcol
+    exact colOk_Ok E a (hsup a ha) _ hcol
+  have hMgsub : ∀ k, Mg keys kf M k <+ M := by
+    intro k; unfold Mg; split
+    · exact Sublist.refl _
+    · exact filter_sublist
+  have hgr : ∀ kg ∈ groupsOf keys kf S, aggGroup cx [] aggs kg.2 = .ok (Vof cx.fo cfg aggs af (Mg keys kf M kg.1)) := by
+    intro kg hkg
+    have hsub := groupsOf_sublist kf keys S kg hkg
+    refine group_vals cx E cfg aggs hsup af M kg.2 (Mg keys kf M kg.1) ?_ hok (hMgsub _) ?_
+    · intro a ha hcs r hr
+      exact (hrow r (hp.mem_iff.mpr (hsub.subset hr))).2.2 a ha hcs
+    · unfold groupsOf at hkg
+      unfold Mg
+      split at hkg
+      · rename_i hk
+        simp only [mem_singleton] at hkg
+        subst hkg
+        rw [if_pos hk]
+        exact hp
+      · rename_i hk
+        rw [groupBy_keyedBy] at hkg
+        obtain ⟨k, _, rfl⟩ := mem_map.mp hkg
+        rw [if_neg hk]
+        exact hp.filter _
+  have hspec := aggregate_ok cx [] keys aggs S kf (fun kg => Vof cx.fo cfg aggs af (Mg keys kf M kg.1))
+    (fun _ r hr => (hrow r (hp.mem_iff.mpr hr)).2.1) hgr
+  rw [hspec] at hs
+  cases hs
+  by_cases hke : keys.isEmpty = true
+  · have e1 : groupAggT cx.fo cfg aggs keys.isEmpty (M.map fun r => (kf r, aggs.map fun a => af a r))
+        = [([], Vof cx.fo cfg aggs af M)] := by
+      simp only [groupAggT, hke, if_true, map_cons, map_nil]
+      have : (M.map fun r => (kf r, aggs.map fun a => af a r)).map (fun x => x.2) = M.map fun r => aggs.map fun a => af a r := by
+        rw [map_map]; rfl
+      rw [this, agg_vals_eq cfg aggs M af]
+      rfl
+    rw [e1]
+    simp only [groupsOf, hke, if_true, map_cons, map_nil, Mg]
+    exact Perm.refl _
+  · have hke' : keys.isEmpty = false := by simpa using hke
+    have e1 : groupAggT cx.fo cfg aggs keys.isEmpty (M.map fun r => (kf r, aggs.map fun a => af a r))
+        = (IQE.Bag.dedup (M.map kf)).map fun k => (k, Vof cx.fo cfg aggs af (kfil kf k M)) := by
+      simp only [groupAggT, hke', Bool.false_eq_true, if_false]
+      rw [IQE.Bag.groupBy_eq, IQE.Bag.groupSpec, map_map, map_map]
+      have : (fun x : Row × Row => x.1) ∘ (fun r => (kf r, aggs.map fun a => af a r)) = kf := rfl
+      rw [this]
+      apply map_congr_left
+      intro k _
+      simp only [Function.comp_def, rowsOf_map kf (fun r => aggs.map fun a => af a r) k M]
+      rw [agg_vals_eq cfg aggs (kfil kf k M) af]
+      rfl
+    rw [e1]
+    simp only [groupsOf, hke', Bool.false_eq_true, if_false, groupBy_keyedBy, map_map, Function.comp_def, Mg]
+    exact (IQE.Bag.dedup_perm (hp.map kf)).map _
+
+end aggnode
+
+/-! ### distinct, union all -/
+
+theorem distinct_node (fo : FloatOps) (M S : Table) (g : List (Row × Row)) (hp : M ~ S)
+    (hm : Acc.groupAgg {} fo .hash [] false (M.map fun r => (r, [])) = .ok g) :
+    g.map (·.1) ~ dedupRows S := by
+  rw [Acc.groupAgg_eq] at hm
+  cases hm
+  rw [map_map, IQE.Bag.groupBy_eq, IQE.Bag.groupSpec, map_map, map_map, IQE.Bag.dedupRows_eq]
+  have : (fun x : Row × Row => x.1) ∘ (fun r : Row => (r, ([] : Row))) = id := rfl
+  rw [this, map_id]
+  have e : ∀ (F : Row → Row) (l : List Row), (∀ k, F k = k) → l.map F = l :=
+    fun F l h => by rw [show F = id from funext h, map_id]
+  exact (Perm.of_eq (e _ _ (fun k => rfl))).trans (IQE.Bag.dedup_perm hp)
+
+/-! ### `Spec.run` equations used below -/
+
+theorem run_agg (fo : FloatOps) (fns : String → List Val → Except Err Val) (cat : List Table) (keys : List Expr)
+    (aggs : List AggCall) (q : Query) (ctes : List Table) (env : Env) :
+    Spec.run fo fns cat (.agg keys aggs q) ctes env =
+      (Spec.run fo fns cat q ctes env >>= fun rows => aggregate (IQE.Subq.aggCx fo fns) env keys aggs rows) := by
+  rw [Spec.run]
+  rfl
+
+theorem run_values (fo : FloatOps) (fns : String → List Val → Except Err Val) (cat : List Table) (rows : List (List Expr))
+    (ctes : List Table) (env : Env) :
+    Spec.run fo fns cat (.values rows) ctes env =
+      rows.mapM (fun es => evalList { fo := fo, runSub := fun _ _ => .error (.bad "subquery in VALUES"), fn := fns } env es) := by
+  rw [Spec.run]
+
+/-! ### the induction over the unordered fragment -/
+
+/-- **model output ~ reference output** for every plan of the unordered fragment, every configuration, every catalog layout -/
+theorem runBag_refines {fo : FloatOps} (E : AggHom.FloatExact fo) (fns : String → List Val → Except Err Val) (cfg : ExecCfg)
+    (cat : List (List Table)) (q : Query) :
+    bagFrag q = true → ∀ out ref, runBag fo fns cfg cat q = .ok out →
+      Spec.run fo fns (cat.map List.flatten) q [] [] = .ok ref → out ~ ref := by
+  fun_induction bagFrag q with
+  | case1 t =>
+    intro _ out ref hm hs
+    exact scan_node fo fns cfg cat t out ref hm hs
+  | case2 rows =>
+    intro _ out ref hm hs
+    rw [run_values] at hs
+    rw [runBag] at hm
+    simp only [Values.lower, Bool.false_eq_true, if_false] at hm
+    rw [hm] at hs
+    cases hs
+    exact Perm.refl _
+  | case3 p q ih =>
+    intro hq out ref hm hs
+    rw [runBag] at hm
+    simp only [Filter.bind_ok, Filter.pure_ok] at hm
+    obtain ⟨t, ht, outs, houts, rfl⟩ := hm
+    rw [IQE.Subq.run_filter] at hs
+    obtain ⟨S, hS, hs⟩ := Filter.bind_ok.mp hs
+    exact filter_node (IQE.Subq.nodeCx fo fns _ [] []) p (cfg.layout t) S ref outs
+      ((cfg.layout_perm t).trans (ih hq t S ht hS)) houts hs
+  | case4 es q ih =>
+    intro hq out ref hm hs
+    rw [runBag] at hm
+    simp only [Filter.bind_ok, Filter.pure_ok] at hm
+    obtain ⟨t, ht, outs, houts, rfl⟩ := hm
+    rw [IQE.Layout.run_project] at hs
+    obtain ⟨S, hS, hs⟩ := Filter.bind_ok.mp hs
+    exact project_node (IQE.Subq.nodeCx fo fns _ [] []) es (cfg.layout t) S ref outs
+      ((cfg.layout_perm t).trans (ih hq t S ht hS)) houts hs
+  | case5 jt lw rw on l r ihl ihr =>
+    intro hq out ref hm hs
+    simp only [Bool.and_eq_true] at hq
+    rw [runBag] at hm
+    simp only [Filter.bind_ok, Filter.pure_ok] at hm
+    obtain ⟨L, hL, R, hR, u, hg, rfl⟩ := hm
+    rw [IQE.Subq.run_join] at hs
+    obtain ⟨SL, hSL, hs⟩ := Filter.bind_ok.mp hs
+    obtain ⟨SR, hSR, hs⟩ := Filter.bind_ok.mp hs
+    exact join_node (IQE.Subq.nodeCx fo fns _ [] []) cfg jt lw rw on L R SL SR ref
+      (ihl hq.1 L SL hL hSL) (ihr hq.2 R SR hR hSR) hg hs
+  | case6 keys aggs q ih =>
+    intro hq out ref hm hs
+    simp only [Bool.and_eq_true] at hq
+    rw [runBag] at hm
+    simp only [Filter.bind_ok, Filter.pure_ok] at hm
+    obtain ⟨t, ht, keyed, hkeyed, u, hg, rfl⟩ := hm
+    rw [run_agg] at hs
+    obtain ⟨S, hS, hs⟩ := Filter.bind_ok.mp hs
+    exact agg_node (IQE.Subq.aggCx fo fns) E cfg keys aggs (cfg.layout t) S ref keyed
+      ((cfg.layout_perm t).trans (ih hq.2 t S ht hS)) hkeyed hg hs
+  | case7 q ih =>
+    intro hq out ref hm hs
+    rw [runBag] at hm
+    simp only [Filter.bind_ok, Filter.pure_ok] at hm
+    obtain ⟨t, ht, g, hg, rfl⟩ := hm
+    rw [IQE.Layout.run_distinct] at hs
+    obtain ⟨S, hS, hs⟩ := Filter.bind_ok.mp hs
+    cases hs
+    exact distinct_node fo _ S g ((cfg.layout_perm t).trans (ih hq t S ht hS)) hg
+  | case8 l r ihl ihr =>
+    intro hq out ref hm hs
+    simp only [Bool.and_eq_true] at hq
+    rw [runBag] at hm
+    simp only [Filter.bind_ok, Filter.pure_ok] at hm
+    obtain ⟨L, hL, R, hR, rfl⟩ := hm
+    rw [IQE.Layout.run_unionAll] at hs
+    obtain ⟨SL, hSL, hs⟩ := Filter.bind_ok.mp hs
+    obtain ⟨SR, hSR, hs⟩ := Filter.bind_ok.mp hs
+    cases hs
+    rw [flatten_append, flatten_append]
+    exact ((cfg.layout_perm L).trans (ihl hq.1 L SL hL hSL)).append ((cfg.layout_perm R).trans (ihr hq.2 R SR hR hSR))
+  | case9 q _ _ _ _ _ _ _ _ =>
+    intro hq
+    cases hq
+
+/-! ### the ordered top level -/
+
+section ordered
+open IQE.Lemmas.SortModel IQE.Lemmas.OrderAux IQE.Lemmas.KeyOrder IQE.Lemmas.Sorting IQE.Engine.SortLimit
+
+/-- the expression context of ORDER BY in `Spec.run` / `Spec.acceptable` -/
+abbrev sortCx (fo : FloatOps) (fns : String → List Val → Except Err Val) : EvalCtx :=
+  { fo := fo, fn := fns, runSub := fun _ _ => .error (.unsupported "subquery inside ORDER BY") }
+
+/-- the sort-key vector of a row, as a pure function -/
+def kvOf (cx : EvalCtx) (keys : List SortKey) : Row → List Val := tot fun r => evalList cx [r] (keys.map (·.e))
+
+def keyedOf (cx : EvalCtx) (keys : List SortKey) (t : Table) : List Keyed := t.map fun r => (kvOf cx keys r, r)
+
+theorem keyedOf_snd (cx : EvalCtx) (keys : List SortKey) (t : Table) : (keyedOf cx keys t).map (·.2) = t := by
+  simp [keyedOf, Function.comp_def]
+
+theorem keyedOf_mem (cx : EvalCtx) (keys : List SortKey) (t : Table) (x : Keyed) (hx : x ∈ keyedOf cx keys t) :
+    x.2 ∈ t ∧ x.1 = kvOf cx keys x.2 := by
+  obtain ⟨r, hr, rfl⟩ := mem_map.mp hx
+  exact ⟨hr, rfl⟩
+
+/-- the model's key evaluation over the batches is the pure keyed table -/
+theorem sort_keyed (cx : EvalCtx) (keys : List SortKey) (lay : List (List Table)) (parts : List (List (List Keyed)))
+    (hm : mapRows (Engine.Pipeline.sortKeyed cx.fo keys) lay = .ok parts) :
+    parts.flatten.flatten = keyedOf cx keys lay.flatten.flatten ∧
+    ∀ r ∈ lay.flatten.flatten, evalList cx [r] (keys.map (·.e)) = .ok (kvOf cx keys r) := by
+  obtain ⟨h1, h2⟩ := mapRows_ok _ lay parts hm
+  have key : ∀ r ∈ lay.flatten.flatten, tot (Engine.Pipeline.sortKeyed cx.fo keys) r = (kvOf cx keys r, r) ∧
+      evalList cx [r] (keys.map (·.e)) = .ok (kvOf cx keys r) := by
+    intro r hr
+    have h := h1 r hr
+    generalize tot (Engine.Pipeline.sortKeyed cx.fo keys) r = kr at h
+    simp only [Engine.Pipeline.sortKeyed, Filter.bind_ok, Filter.pure_ok] at h
+    obtain ⟨kv, hkv, rfl⟩ := h
+    have hs := Filter.evalList_refines cx r _ (fun x _ v hv => Filter.eval_refines cx r x v hv) kv hkv
+    have : kvOf cx keys r = kv := by simp [kvOf, tot, hs]
+    rw [this]
+    exact ⟨rfl, hs⟩
+  refine ⟨?_, fun r hr => (key r hr).2⟩
+  rw [h2, keyedOf]
+  exact map_congr_left fun r hr => (key r hr).1
+
+/-- the reference ORDER BY in pure form -/
+theorem spec_sort_ok (fo : FloatOps) (fns : String → List Val → Except Err Val) (cat : List Table) (keys : List SortKey)
+    (q : Query) (full : Table) (h : Spec.run fo fns cat (.sort keys q) [] [] = .ok full) :
+    ∃ S, Spec.run fo fns cat q [] [] = .ok S ∧
+      full = (Spec.sortKeyed fo (flagsOf keys) (keyedOf (sortCx fo fns) keys S)).map (·.2) ∧
+      ∀ r ∈ S, evalList (sortCx fo fns) [r] (keys.map (·.e)) = .ok (kvOf (sortCx fo fns) keys r) := by
+  rw [IQE.Dist.run_sort] at h
+  obtain ⟨S, hS, h⟩ := Filter.bind_ok.mp h
+  obtain ⟨keyed, hk, h⟩ := Filter.bind_ok.mp h
+  obtain ⟨h1, h2⟩ := (mapM_ok_iff _ S keyed).mp hk
+  have key : ∀ r ∈ S, tot (fun r => do
+        pure ((← evalList (sortCx fo fns) (r :: []) (keys.map (·.e))), r) : Row → Except Err Keyed) r
+        = (kvOf (sortCx fo fns) keys r, r) ∧
+      evalList (sortCx fo fns) [r] (keys.map (·.e)) = .ok (kvOf (sortCx fo fns) keys r) := by
+    intro r hr
+    have h := h1 r hr
+    generalize tot (fun r => do
+        pure ((← evalList (sortCx fo fns) (r :: []) (keys.map (·.e))), r) : Row → Except Err Keyed) r = kr at h
+    simp only [Filter.bind_ok, Filter.pure_ok] at h
+    obtain ⟨kv, hkv, rfl⟩ := h
+    have : kvOf (sortCx fo fns) keys r = kv := by simp [kvOf, tot, hkv]
+    rw [this]
+    exact ⟨rfl, hkv⟩
+  refine ⟨S, hS, ?_, fun r hr => (key r hr).2⟩
+  simp only [Filter.pure_ok] at h
+  rw [← h, h2, keyedOf]
+  congr 2
+  exact map_congr_left fun r hr => (key r hr).1
+
+theorem typedB_Typed : ∀ (tys : List Ty) (kv : List Val), typedB tys kv = true → Typed tys kv
+  | [], [], _ => trivial
+  | t :: ts, v :: vs, h => by
+    simp only [typedB, Bool.and_eq_true, Bool.or_eq_true, beq_iff_eq] at h
+    refine ⟨?_, typedB_Typed ts vs h.2⟩
+    rcases h.1 with h1 | h1
+    · left; cases v <;> simp_all [Val.isNull]
+    · right; exact h1
+  | [], _ :: _, h => by simp [typedB] at h
+  | _ :: _, [], h => by simp [typedB] at h
+
+theorem sortGuard_typed (n : Nat) (keyed : List Keyed) (h : sortGuard n keyed = .ok ()) :
+    ∃ tys : List Ty, tys.length = n ∧ KeysTyped tys keyed := by
+  unfold sortGuard at h
+  split at h
+  · rename_i hall
+    exact ⟨keyTys n (keyed.map (·.1)), by simp [keyTys], fun x hx => typedB_Typed _ _ (all_eq_true.mp hall x hx)⟩
+  · cases h
+
+theorem usizeGuard_ok (skip len : Nat) (h : usizeGuard skip len = .ok ()) :
+    (skip : Int) ≤ Rs.USIZE_MAX ∧ (len : Int) ≤ Rs.USIZE_MAX := by
+  unfold usizeGuard at h
+  split at h
+  · rename_i hc
+    simpa using hc
+  · cases h
+
+theorem sortedBy_of_pairwise (fo : FloatOps) (flags : List (Bool × Bool)) :
+    ∀ (l : List (List Val)), l.Pairwise (fun a b => cmpKeys fo flags a b ≠ .gt) → sortedBy fo flags l = true
+  | [], _ => rfl
+  | [_], _ => rfl
+  | a :: b :: rest, h => by
+    rw [pairwise_cons] at h
+    simp only [sortedBy, Bool.and_eq_true, bne_iff_ne, ne_eq]
+    exact ⟨h.1 b (by simp), sortedBy_of_pairwise fo flags (b :: rest) h.2⟩
+
+theorem takeOpt_map {α β : Type} (f : α → β) (fetch : Option Nat) (l : List α) :
+    (takeOpt fetch l).map f = takeOpt fetch (l.map f) := by
+  cases fetch <;> simp [takeOpt]
+
+theorem takeOpt_drop_sublist {α : Type} (fetch : Option Nat) (skip : Nat) (l : List α) : takeOpt fetch (l.drop skip) <+ l := by
+  cases fetch with
+  | none => exact drop_sublist _ _
+  | some n => exact (take_sublist _ _).trans (drop_sublist _ _)
+
+theorem subBag_of_sublist_perm (a b c : Table) (h1 : a <+ b) (h2 : b ~ c) : subBag a c = true :=
+  (IQE.Lemmas.Bag.subBag_iff_count a c).mpr fun x => (h2.count_eq x) ▸ h1.count_le x
+
+/-- what the model's keyed table and the reference keyed table have in common -/
+theorem keyed_perm (cx : EvalCtx) (keys : List SortKey) {M S : Table} (h : M ~ S) : keyedOf cx keys M ~ keyedOf cx keys S :=
+  h.map _
+
+/-- **ORDER BY at the top**: the model's output is a permutation of the reference answer, its key vectors evaluate, and they
+    are sorted under the ORDER BY comparator — what `Spec.acceptable` checks -/
+theorem sort_top (fo : FloatOps) (fns : String → List Val → Except Err Val) (cfg : ExecCfg) (keys : List SortKey)
+    (M S out full : Table) (hMS : M ~ S) (hm : sortTop fo cfg keys M = .ok out)
+    (hfull : full = (Spec.sortKeyed fo (flagsOf keys) (keyedOf (sortCx fo fns) keys S)).map (·.2))
+    (hSk : ∀ r ∈ S, evalList (sortCx fo fns) [r] (keys.map (·.e)) = .ok (kvOf (sortCx fo fns) keys r)) :
+    out ~ full ∧ ∃ ko, keysOf (sortCx fo fns) [] keys out = .ok ko ∧ sortedBy fo (flagsOf keys) ko = true := by
+  unfold sortTop at hm
+  simp only [Filter.bind_ok, Filter.pure_ok] at hm
+  obtain ⟨parts, hparts, u, hguard, rfl⟩ := hm
+  obtain ⟨hk1, _⟩ := sort_keyed (sortCx fo fns) keys (cfg.layout M) parts hparts
+  have hM' : (cfg.layout M).flatten.flatten ~ S := (cfg.layout_perm M).trans hMS
+  generalize (cfg.layout M).flatten.flatten = M' at *
+  obtain ⟨tys, htl, hty⟩ := sortGuard_typed _ _ hguard
+  have hlen : (flagsOf keys).length ≤ tys.length := by simp [flagsOf, htl]
+  obtain ⟨hpw, _, hsorted⟩ := IQE.Props.C25.C25_order fo (flagsOf keys) tys parts hlen hty
+  rw [hsorted, hk1] at hpw ⊢
+  have hperm : (Spec.sortKeyed fo (flagsOf keys) (keyedOf (sortCx fo fns) keys M')).map (·.2) ~ S :=
+    ((IQE.Dist.sortKeyed_perm fo _ _).map _).trans (by rw [keyedOf_snd]; exact hM')
+  have hperm2 : full ~ S := by
+    rw [hfull]
+    refine ((IQE.Dist.sortKeyed_perm fo _ _).map _).trans ?_
+    rw [keyedOf_snd]
+  refine ⟨hperm.trans hperm2.symm,
+    ((Spec.sortKeyed fo (flagsOf keys) (keyedOf (sortCx fo fns) keys M')).map (·.2)).map (kvOf (sortCx fo fns) keys), ?_, ?_⟩
+  · unfold keysOf
+    exact IQE.Bag.mapM_ok _ (kvOf (sortCx fo fns) keys) _ (fun r hr => hSk r (hperm.mem_iff.mp hr))
+  · rw [map_map]
+    have : (Spec.sortKeyed fo (flagsOf keys) (keyedOf (sortCx fo fns) keys M')).map (kvOf (sortCx fo fns) keys ∘ fun x => x.2)
+        = (Spec.sortKeyed fo (flagsOf keys) (keyedOf (sortCx fo fns) keys M')).map (·.1) :=
+      map_congr_left fun x hx =>
+        ((keyedOf_mem _ keys M' x ((IQE.Dist.sortKeyed_perm fo _ _).mem_iff.mp hx)).2).symm
+    rw [this]
+    exact sortedBy_of_pairwise fo _ _ (pairwise_map.mpr hpw)
+
+theorem tied_cmpKeys_eq (fo : FloatOps) (flags : List (Bool × Bool)) (tys : List Ty) (hlen : flags.length ≤ tys.length)
+    (a b : Keyed) (ha : Typed tys a.1) (hb : Typed tys b.1) (h : Tied (leKT flags) a b) : cmpKeys fo flags a.1 b.1 = .eq := by
+  rw [cmpKeys_eq_T fo flags tys a.1 b.1 hlen ha hb]
+  obtain ⟨h1, h2⟩ := h
+  simp only [leKT, leT, bne_iff_ne, ne_eq] at h1 h2
+  have hsw : cmpKeysT flags b.1 a.1 = (cmpKeysT flags a.1 b.1).swap := Std.OrientedCmp.eq_swap
+  cases hc : cmpKeysT flags a.1 b.1 with
+  | eq => rfl
+  | lt => rw [hc] at hsw; simp [hsw] at h2
+  | gt => exact absurd hc h1
+
+/-- **LIMIT / OFFSET over ORDER BY at the top** (fused top-k or `LimitExec` over `SortExec`): the window has the reference
+    window's key vector at every position and consists of rows of the sorted input — what `Spec.acceptable` checks -/
+theorem sort_limit_top (fo : FloatOps) (fns : String → List Val → Except Err Val) (cfg : ExecCfg) (skip : Nat)
+    (fetch : Option Nat) (keys : List SortKey) (M S out full : Table) (hMS : M ~ S)
+    (hm : sortLimitTop fo cfg skip fetch keys M = .ok out)
+    (hfull : full = (Spec.sortKeyed fo (flagsOf keys) (keyedOf (sortCx fo fns) keys S)).map (·.2))
+    (hSk : ∀ r ∈ S, evalList (sortCx fo fns) [r] (keys.map (·.e)) = .ok (kvOf (sortCx fo fns) keys r)) :
+    ∃ ko ke, keysOf (sortCx fo fns) [] keys out = .ok ko ∧
+      keysOf (sortCx fo fns) [] keys (takeOpt fetch (full.drop skip)) = .ok ke ∧
+      keysPointwiseEq fo (flagsOf keys) ko ke = true ∧ subBag out full = true := by
+  unfold sortLimitTop at hm
+  simp only [Filter.bind_ok, Filter.pure_ok] at hm
+  obtain ⟨parts, hparts, u, hguard, u', husize, rfl⟩ := hm
+  obtain ⟨hk1, _⟩ := sort_keyed (sortCx fo fns) keys (cfg.layout M) parts hparts
+  have hM' : (cfg.layout M).flatten.flatten ~ S := (cfg.layout_perm M).trans hMS
+  generalize (cfg.layout M).flatten.flatten = M' at *
+  obtain ⟨tys, htl, hty⟩ := sortGuard_typed _ _ hguard
+  obtain ⟨hU1, hU2⟩ := usizeGuard_ok _ _ husize
+  have hlen : (flagsOf keys).length ≤ tys.length := by simp [flagsOf, htl]
+  -- whichever physical plan: the window of the sorted keyed table
+  have hwin : execPhys fo (flagsOf keys) parts
+      (if cfg.fuseTopK then planLimitOverSort skip fetch else .limitOverSort skip fetch)
+      = takeOpt fetch ((Spec.sortKeyed fo (flagsOf keys) parts.flatten.flatten).drop skip) := by
+    have hunfused : execPhys fo (flagsOf keys) parts (.limitOverSort skip fetch)
+        = takeOpt fetch ((Spec.sortKeyed fo (flagsOf keys) parts.flatten.flatten).drop skip) := by
+      show (limitExec skip fetch [sortExec fo (flagsOf keys) none parts]).1.flatten = _
+      have hflat : [sortExec fo (flagsOf keys) none parts].flatten.flatten
+          = Spec.sortKeyed fo (flagsOf keys) parts.flatten.flatten := by
+        simp only [List.flatten_cons, List.flatten_nil, List.append_nil]
+        rw [sortExec_flatten]; rfl
+      have := (limitExec_spec skip fetch [sortExec fo (flagsOf keys) none parts] hU1 (by
+        rw [hflat, sortKeyed_eq, List.length_mergeSort]; exact hU2)).1
+      rw [this, hflat]
+    cases cfg.fuseTopK
+    · simp only [Bool.false_eq_true, if_false]; exact hunfused
+    · simp only [if_true]; exact orderLimit_eq fo (flagsOf keys) skip fetch parts hU1 hU2
+  rw [hwin, hk1]
+  rw [hk1] at hty
+  generalize hKM : keyedOf (sortCx fo fns) keys M' = KM at *
+  have hKMS : KM ~ keyedOf (sortCx fo fns) keys S := hKM ▸ keyed_perm _ keys hM'
+  generalize hKS : keyedOf (sortCx fo fns) keys S = KS at *
+  have htyS : KeysTyped tys KS := fun x hx => hty x (hKMS.mem_iff.mpr hx)
+  -- both sorts under the lawful comparator
+  have esM := sortKeyed_eq_T fo (flagsOf keys) tys KM hlen hty
+  have esS := sortKeyed_eq_T fo (flagsOf keys) tys KS hlen htyS
+  have hsortedM : (KM.mergeSort (leKT (flagsOf keys))).Pairwise (fun a b => leKT (flagsOf keys) a b) :=
+    List.pairwise_mergeSort (leKT_trans _) (leKT_total _) KM
+  obtain ⟨hpt, _⟩ := IQE.Props.C25.C25_ties_any_order (flagsOf keys) KS (KM.mergeSort (leKT (flagsOf keys)))
+    ((List.mergeSort_perm KM _).trans hKMS) hsortedM skip fetch
+  rw [esM]
+  generalize hWM : takeOpt fetch ((KM.mergeSort (leKT (flagsOf keys))).drop skip) = WM at *
+  have hfullw : takeOpt fetch (full.drop skip) = (takeOpt fetch ((KS.mergeSort (leKT (flagsOf keys))).drop skip)).map (·.2) := by
+    rw [hfull, esS, takeOpt_map, map_drop]
+  generalize hWS : takeOpt fetch ((KS.mergeSort (leKT (flagsOf keys))).drop skip) = WS at *
+  have hWMsub : WM <+ KM.mergeSort (leKT (flagsOf keys)) := hWM ▸ takeOpt_drop_sublist fetch skip _
+  have hWSsub : WS <+ KS.mergeSort (leKT (flagsOf keys)) := hWS ▸ takeOpt_drop_sublist fetch skip _
+  have hWMmem : ∀ x ∈ WM, x ∈ KM := fun x hx => (List.mergeSort_perm KM _).mem_iff.mp (hWMsub.subset hx)
+  have hWSmem : ∀ x ∈ WS, x ∈ KS := fun x hx => (List.mergeSort_perm KS _).mem_iff.mp (hWSsub.subset hx)
+  have hKMform : ∀ x ∈ KM, x.2 ∈ S ∧ x.1 = kvOf (sortCx fo fns) keys x.2 := by
+    intro x hx
+    have := keyedOf_mem (sortCx fo fns) keys M' x (hKM ▸ hx)
+    exact ⟨hM'.mem_iff.mp this.1, this.2⟩
+  have hKSform : ∀ x ∈ KS, x.2 ∈ S ∧ x.1 = kvOf (sortCx fo fns) keys x.2 := by
+    intro x hx
+    exact keyedOf_mem (sortCx fo fns) keys S x (hKS ▸ hx)
+  have hkeys : ∀ (W : List Keyed), (∀ x ∈ W, x.2 ∈ S ∧ x.1 = kvOf (sortCx fo fns) keys x.2) →
+      keysOf (sortCx fo fns) [] keys (W.map (·.2)) = .ok (W.map (·.1)) := by
+    intro W hW
+    unfold keysOf
+    rw [IQE.Bag.mapM_ok _ (kvOf (sortCx fo fns) keys) _ (fun r hr => by
+      obtain ⟨x, hx, rfl⟩ := mem_map.mp hr
+      exact hSk _ (hW x hx).1), map_map]
+    congr 1
+    exact map_congr_left fun x hx => ((hW x hx).2).symm
+  refine ⟨WM.map (·.1), WS.map (·.1), hkeys WM (fun x hx => hKMform x (hWMmem x hx)), ?_, ?_, ?_⟩
+  · rw [hfullw]; exact hkeys WS (fun x hx => hKSform x (hWSmem x hx))
+  · rw [keysPointwiseEq_iff]
+    refine ⟨by simpa using hpt.1, ?_⟩
+    intro i h1 h2
+    simp only [length_map] at h1 h2
+    simp only [getElem_map]
+    exact tied_cmpKeys_eq fo (flagsOf keys) tys hlen _ _ (hty _ (hWMmem _ (getElem_mem h1)))
+      (htyS _ (hWSmem _ (getElem_mem h2))) (hpt.2 i h1 h2)
+  · refine subBag_of_sublist_perm _ ((KM.mergeSort (leKT (flagsOf keys))).map (·.2)) _ (hWMsub.map _) ?_
+    have e1 : (KM.mergeSort (leKT (flagsOf keys))).map (·.2) ~ S := by
+      refine ((List.mergeSort_perm KM _).map _).trans ?_
+      rw [← hKM, keyedOf_snd]; exact hM'
+    have e2 : full ~ S := by
+      rw [hfull]
+      refine ((IQE.Dist.sortKeyed_perm fo _ _).map _).trans ?_
+      rw [← hKS, keyedOf_snd]
+    exact e1.trans e2.symm
+
+/-- the number of rows `OFFSET skip LIMIT fetch` returns from `len` rows -/
+def limitLen (fetch : Option Nat) (len skip : Nat) : Nat :=
+  match fetch with
+  | some n => min n (len - skip)
+  | none => len - skip
+
+/-- **LIMIT / OFFSET over an unordered input at the top** -/
+theorem limit_top (cfg : ExecCfg) (skip : Nat) (fetch : Option Nat) (M S out : Table) (hMS : M ~ S)
+    (hm : limitTop cfg skip fetch M = .ok out) :
+    out.length = limitLen fetch S.length skip ∧ subBag out S = true := by
+  unfold limitTop at hm
+  simp only [Filter.bind_ok, Filter.pure_ok] at hm
+  obtain ⟨u, husize, rfl⟩ := hm
+  obtain ⟨hU1, hU2⟩ := usizeGuard_ok _ _ husize
+  rw [(limitExec_spec skip fetch (cfg.layout M) hU1 hU2).1]
+  have hM' : (cfg.layout M).flatten.flatten ~ S := (cfg.layout_perm M).trans hMS
+  refine ⟨?_, subBag_of_sublist_perm _ _ _ (takeOpt_drop_sublist fetch skip _) hM'⟩
+  cases fetch <;> simp [takeOpt, limitLen, hM'.length_eq]
+
+end ordered
 
 end IQE.Lemmas.Pipeline
